@@ -33,7 +33,7 @@ type RemoveContactGroupsAction struct {
 	baseAction
 	universalAction
 
-	Groups    []*assets.GroupReference `json:"groups,omitempty" validate:"dive"`
+	Groups    []*assets.GroupReference `json:"groups,omitempty" validate:"dive,required"`
 	AllGroups bool                     `json:"all_groups,omitempty"`
 }
 
